@@ -261,6 +261,10 @@ package resolver
 //@   nosafety all pre
 //@   assert at store dns.MsgHdr.Id#1: lastret("(*middleware/resolver.SingleflightWrapper).TimedDoChanWithRole", 1) ==> target == lastret("(*github.com/miekg/dns.Msg).Copy#2")
 //@   assert at store dns.MsgHdr.Id#1: value == req.Id
+//@   # C10: a caller that shared another caller's upstream lookup (the share key folds case) is handed a private copy
+//@   # carrying ITS OWN question spelling and its own ID - never the leader's
+//@   assert at store dns.Question.Name#1: value == req.Question[0].Name && lastret("(*middleware/resolver.SingleflightWrapper).TimedDoChanWithRole", 1) && calls("(*github.com/miekg/dns.Msg).Copy") >= 1
+//@   possible at store dns.Question.Name#1: true
 //@   assert at call (*middleware/resolver.SingleflightWrapper).TimedDoChanWithRole#1: !owned ==> calls("(*github.com/miekg/dns.Msg).Copy") == 1
 //@
 //@ func (*Resolver).groupLookup$1
